@@ -10,7 +10,10 @@ REQUIRED_THEOREMS = ['Props.C16.im2col_variants_agree', 'Props.C16.col2im_varian
                      'Props.C16.fold_unfold_coverage']
 RULE = ('large inputs (more than 2^20 column entries, batch 3..11) on the implementation side: the three variants against the window definition (torch unfold) and the adjoint identity; a few geometries with one axis of extent 253..300 (where narrow index types would wrap); geometry grid: N, C in 1..2, H, W in 1..6, kernel 1..3, stride 1..3, dilation 1..2, padding 0..d(k-1)/2+1 per axis independently '
         '(non-square, stride > kernel, windows that do not tile), int and tuple kernel sizes, both layouts (N x CkHkW x L and the 2-D '
-        'column matrix), pad_value of every numeric type and spelling (Python int / float / bool, NumPy int8..int64 / uint8 / float16..float64, signed zero, fractions, +-inf) also with padding 0, data with fractional parts (multiples of 1/8, so equality stays exact) or integer-valued, float64 and float32 arrays, the dtype of every result = the dtype of its input; half of the calls of the index-based variants use an index triple obtained with return_indices=True that has already been through col2im and im2col (col_indices=); four in ten calls are the second call on the same array object after it was overwritten in place (a re-used buffer); every input array is handed over in one of the memory layouts C, Fortran, strided view, negative-stride view, window into a larger buffer; each of the three im2col and three col2im '
+        'column matrix), pad_value of every numeric type and spelling (Python int / float / bool, NumPy int8..int64 / uint8 / float16..float64, signed zero, fractions, +-inf) also with padding 0, data with fractional parts (multiples of 1/8, so equality stays exact) or integer-valued, float64 and float32 arrays, the dtype of every result = the dtype of its input; half of the calls of the index-based variants use an index triple obtained with return_indices=True that has already been through col2im and im2col (col_indices=); four in ten calls are the second call on the same array object after it was overwritten in place (a re-used buffer); every input array is handed over in one of the memory layouts C, Fortran, strided view, negative-stride view, window into a larger buffer; '
+        'SIZE-1 AXES: geometries with W = 1, H = 1, N = 1, C = 1 (any combination) and kernel extents 1, padding 0 (70 %) and > 0, whose input arrays '
+        '(images, column matrices, window arrays) got their size-1 axes by newaxis / expand_dims / broadcast_to / a transpose / a stepped slice of a wider buffer / reshape of a strided view / '
+        'as_strided with an odd, negative or wide stride on those axes (NumPy never advances them and still flags the array C-contiguous), each rebuilt inside a much larger buffer; each of the three im2col and three col2im '
         'implementations and extract/place_windows is compared with its own model definition, ~8 % geometries without a window '
         '(must raise). Extra implementation-side checks: the three variants agree bit for bit, <im2col x, y> = <x, col2im y>, '
         'fold(unfold(ones)) = coverage counts. Non-trivial: at least 2 windows and an overlapping or dilated geometry.')
@@ -28,6 +31,29 @@ def geom(rng, malformed=False):
         if H + 2 * ph < dh * (kh - 1) + 1: ph += (dh * (kh - 1) + 1 - H - 2 * ph + 1) // 2 + 1
         if W + 2 * pw < dw * (kw - 1) + 1: pw += (dw * (kw - 1) + 1 - W - 2 * pw + 1) // 2 + 1
     return {'N': N, 'C': C, 'H': H, 'W': W, 'k': (kh, kw), 's': (sh, sw), 'p': (ph, pw), 'd': (dh, dw)}
+
+
+def unit_geom(rng):
+    """geometries with SIZE-1 axes: single-column / single-row images (W = 1, H = 1, both), batch 1, one channel, kernel extents 1 - with
+    padding 0 (most of the time: nothing is padded, the variants read the caller's memory as it is) and > 0"""
+    g = geom(rng)
+    k, s_, p, d = list(g['k']), list(g['s']), list(g['p']), list(g['d'])
+    which = rng.pick(['W', 'W', 'W', 'H', 'HW', 'N', 'C', 'NC', 'all', 'k1', 'NCW'])
+    for ax, name in enumerate(('H', 'W')):
+        if name in which or which == 'all':
+            g[name] = 1
+            if rng.chance(.7): p[ax], k[ax], d[ax] = 0, 1, rng.randint(1, 2)
+            else:
+                p[ax] = rng.randint(1, 2); d[ax] = 1; k[ax] = rng.randint(1, min(3, 1 + 2 * p[ax]))
+        elif which == 'k1' or rng.chance(.5):
+            k[ax] = 1 if which == 'k1' or rng.chance(.5) else k[ax]
+            if rng.chance(.75):
+                p[ax] = 0
+                if g[name] < d[ax] * (k[ax] - 1) + 1: k[ax] = 1
+    if 'N' in which or which == 'all': g['N'] = 1
+    if 'C' in which or which == 'all': g['C'] = 1
+    g.update(k=tuple(k), s=tuple(s_), p=tuple(p), d=tuple(d))
+    return g
 
 
 def big_geom(rng):
@@ -106,9 +132,10 @@ def cases(rng, tier):
     out = []
     n = 60 if tier == 'quick' else 2500
     nbig = 12 if tier == 'quick' else 120
-    for it_ in range(n + nbig):
+    nunit = 45 if tier == 'quick' else 1500
+    for it_ in range(n + nbig + nunit):
         malformed = rng.chance(.08) if it_ < n else False
-        g = geom(rng, malformed) if it_ < n else big_geom(rng)
+        g = geom(rng, malformed) if it_ < n else big_geom(rng) if it_ < n + nbig else unit_geom(rng)
         # data with fractional parts (multiples of 1/8, exact in float32 and under the sums of col2im) seven times out of ten
         frac = rng.chance(.7)
         q = (lambda: rng.randint(-72, 72) / 8) if frac else (lambda: float(rng.randint(-9, 9)))
@@ -138,11 +165,13 @@ def cases(rng, tier):
         out.append({'fn': 'relations', 'g': g, 'x': x, 'y': y, 'pad': pad, 'malformed': malformed, 'lines': [f"conv im2col spec {gl(g)} {fbits(0.0)} 1 {show_floats(x)}"]})
         for c in out[first:]:
             c['padspec'], c['dt'], c['frac'] = list(padspec), dt, frac
+            if it_ >= n + nbig: c['ulayout'] = rng.pick(UNIT_LAYOUTS)
     for k_ in (rng.sample(range(len(BIG)), 2) if tier == 'quick' else range(len(BIG))):
         out.append({'fn': 'bigrel', 'big': k_, 'seed': rng.randrange(2 ** 31), 'malformed': False, 'g': {'N': 1, 'C': 1, 'H': 1, 'W': 1, 'k': (1, 1), 's': (1, 1), 'p': (0, 0), 'd': (1, 1)},
                     'x': [1.0], 'lines': [f"conv im2col spec 1,1,1,1 1,1 1,1 0,0 1,1 {fbits(0.0)} 1 {show_floats([1.0])}"]})
     for c in out:
         c['layout'] = rng.pick(LAYOUTS)
+        if c.get('ulayout'): c['layout'] = c.pop('ulayout')
         c['reuse'] = rng.chance(.4)
         c['share_idx'] = rng.chance(.5) and not c.get('malformed')
         c['desc'] = f"layout={c['layout']} reuse={int(c['reuse'])} share_idx={int(c['share_idx'])} pad_value={c.get('padspec')} dtype={c.get('dt')} " + c['lines'][0][:400]
@@ -163,9 +192,66 @@ def _args(g, int_k=False):
 LAYOUTS = ['C', 'C', 'F', 'strided', 'reversed', 'offset']
 
 
+# how SIZE-1 axes of the input came about: NumPy leaves the stride of a size-1 axis arbitrary (it is never advanced) and still flags the
+# array C-contiguous, so `a.strides[k]` of such an axis says nothing about the item size
+UNIT_LAYOUTS = ['newaxis', 'expand_dims', 'broadcast', 'swap1', 'stride-odd', 'stride-neg', 'stride-wide', 'slice-step', 'reshape-view']
+
+
+def lay_unit(a, layout):
+    """the view named by `layout`, rebuilt (same shape, same strides, same flags) in the middle of a much larger buffer: a changed
+    implementation that advances along the stride of a size-1 axis then reads wrong values, not unmapped memory"""
+    v = _lay_unit(a, layout)
+    if v.size == 0 or not any(n == 1 for n in v.shape):
+        return v
+    it = v.itemsize
+    smax = max([abs(st) for st, n in zip(v.strides, v.shape) if n == 1] + [it])
+    M = min((smax // it + 2) * (v.size + 8) * 2, 2 ** 22) * it
+    lo = sum(min(0, st * (n - 1)) for st, n in zip(v.strides, v.shape))
+    hi = sum(max(0, st * (n - 1)) for st, n in zip(v.strides, v.shape)) + it
+    buf = np.full((hi - lo + 2 * M) // it + 2, 55.0, dtype=v.dtype)
+    w = np.lib.stride_tricks.as_strided(buf[(M - lo) // it:], v.shape, v.strides)
+    w[...] = v
+    if not v.flags.writeable: w.flags.writeable = False
+    assert w.strides == v.strides and w.flags['C_CONTIGUOUS'] == v.flags['C_CONTIGUOUS'] and np.array_equal(w, v)
+    return w
+
+
+def _lay_unit(a, layout):
+    a = np.ascontiguousarray(a)
+    ones = [i for i, n in enumerate(a.shape) if n == 1]
+    if not ones or a.size == 0:
+        return a
+    sq = a.reshape([n for n in a.shape if n != 1])          # the array without its size-1 axes (contiguous)
+    if layout == 'newaxis':                                  # sig[..., None], sig[None], sig[:, None, :, None]: stride 0
+        return sq[tuple(None if n == 1 else slice(None) for n in a.shape)]
+    if layout == 'expand_dims':
+        return np.expand_dims(sq, tuple(ones))
+    if layout == 'broadcast':                                # read-only, stride 0
+        return np.broadcast_to(np.expand_dims(sq, tuple(ones)), a.shape)
+    if layout == 'swap1':                                    # the size-1 axis sat elsewhere: (.., 1, H) transposed to (.., H, 1)
+        last = ones[-1]
+        other = last - 1 if last > 0 else min(1, a.ndim - 1)
+        return np.swapaxes(np.ascontiguousarray(np.swapaxes(a, last, other)), last, other)
+    if layout in ('stride-odd', 'stride-neg', 'stride-wide'):
+        st = list(a.strides)
+        for i in ones: st[i] = {'stride-odd': 3, 'stride-neg': -7 * a.itemsize, 'stride-wide': 11 * a.itemsize + 1}[layout]
+        return np.lib.stride_tricks.as_strided(a, a.shape, st)
+    if layout == 'slice-step':                               # one column of a wider buffer taken with a step: x[..., 2::5]
+        big = np.full([5 if n == 1 else n for n in a.shape], 55.0, dtype=a.dtype)
+        big[tuple(slice(2, 3) if n == 1 else slice(None) for n in a.shape)] = a
+        return big[tuple(slice(2, None, 5) if n == 1 else slice(None) for n in a.shape)]
+    if layout == 'reshape-view' and sq.ndim:                 # a strided view reshaped to the full shape (NumPy invents the strides of the new axes)
+        big = np.full(sq.shape[:-1] + (2 * sq.shape[-1],), 55.0, dtype=a.dtype)
+        big[..., ::2] = sq
+        return big[..., ::2].reshape(a.shape)
+    return np.expand_dims(sq, tuple(ones))
+
+
 def lay(a, layout):
     """an array with the same values as `a` in another memory layout (the model is value-level; the implementation reads
     memory through strides, so the layout is part of its input space)"""
+    if layout in UNIT_LAYOUTS:
+        return lay_unit(a, layout)
     a = np.ascontiguousarray(a)
     if layout == 'F':
         return np.asfortranarray(a)
@@ -195,7 +281,7 @@ def _run(c):
     def twice(call, a):
         """a re-used buffer: the SAME array object first holds other values and goes through the same call, is then overwritten in
         place with the case's values and goes through the call again; the second answer is the one that counts"""
-        if not c.get('reuse'):
+        if not c.get('reuse') or not a.flags.writeable:
             return call(a)
         real = a.copy()
         a[...] = 2 * real + 1
@@ -328,6 +414,18 @@ def distribution(cases):
         if 'dt' in c: d['data dtype ' + c['dt'] + (', fractional' if c.get('frac') else ', integer-valued')] = d.get('data dtype ' + c['dt'] + (', fractional' if c.get('frac') else ', integer-valued'), 0) + 1
     for c in cases:
         d['layout:' + c.get('layout', 'C')] = d.get('layout:' + c.get('layout', 'C'), 0) + 1
+        if c.get('layout') in UNIT_LAYOUTS:
+            g = c['g']
+            sh = {'im2col': (g['N'], g['C'], g['H'], g['W']), 'extract': (g['N'], g['C'], g['H'], g['W']), 'relations': (g['N'], g['C'], g['H'], g['W']),
+                  'col2im': tuple(c.get('csh', ())), 'place': tuple(c.get('wsh', ()))}[c['fn']]
+            if 0 in sh or not sh: continue
+            v, ref = lay(np.zeros(sh), c['layout']), np.zeros(sh)
+            odd = [i for i in range(len(sh)) if v.strides[i] != ref.strides[i]]
+            k = (f"{c['fn']} input with size-1 axes whose stride is not the contiguous one" + (' (LAST axis among them)' if len(sh) - 1 in odd else '') if odd else f"{c['fn']} unit-layout input without a size-1 axis (plain)") \
+                + (', padding 0' if tuple(g['p']) == (0, 0) else ', padding > 0')
+            d[k] = d.get(k, 0) + 1
+            if odd and v.flags['C_CONTIGUOUS']: d['... still flagged C-contiguous'] = d.get('... still flagged C-contiguous', 0) + 1
+            if g['k'][0] == 1 or g['k'][1] == 1: d['unit-axes family: a kernel extent of 1'] = d.get('unit-axes family: a kernel extent of 1', 0) + 1
     return d
 
 
